@@ -46,7 +46,22 @@ def gen(tier, seed, shard, nshards):
                 out = [0] * p
                 for a in range(p - 1):
                     out[order[a]] |= 1 << order[a + 1]
-                yield "chain", {"A": gmat.to_np(out, dtype=float if rep else int), "seeds": list(range(12))}
+                yield "chain", {"A": gmat.to_np(out, dtype=float if rep else int), "seeds": list(range(40))}
+            c += 1
+    # several unconnected short chains: adding edges joins them end to start
+    for sizes in ((3, 3), (2, 2, 2), (3, 4), (4, 4), (2, 3, 3), (5, 3)):
+        for rep in range(2):
+            if c % nshards == shard:
+                rng = util.rng_for("C18", seed, "multichain", sizes, rep)
+                p_ = sum(sizes)
+                order = [int(v) for v in rng.permutation(p_)]
+                out = [0] * p_
+                pos = 0
+                for sz in sizes:
+                    for a in range(pos, pos + sz - 1):
+                        out[order[a]] |= 1 << order[a + 1]
+                    pos += sz
+                yield "chain", {"A": gmat.to_np(out, dtype=float if rep else int), "seeds": list(range(120)), "multi": True}
             c += 1
     # near-complete DAGs on 35..40 nodes (astronomically many directed walks between far-apart nodes)
     for pbig in range(35, 41):
@@ -172,6 +187,8 @@ def judge(family, case, rec):
     for op, cap in (("remove", E), ("add", full - E)):
         ks = range(0, cap + 2) if family == "dag" else (sorted(set([0, cap, cap + 1, max(0, cap // 2), 1])) if family not in ("chain", "big") else
                                                         sorted(set([1, 2, 3, cap // 2, cap])) if op == "add" else [1])
+        if case.get("multi"):
+            ks = [2, 3, 4, cap] if op == "add" else [1]
         if family == "big":
             ks = [1, cap] if op == "add" else [2]
         for k in ks:
